@@ -28,7 +28,7 @@ Theorem fw_unary_spec x :
   fw_log x = ln x /\ fw_tanh x = tanh x /\ fw_sin x = sin x /\ fw_cos x = cos x /\
   fw_tan x = tan x /\ fw_sigmoid x = 1 / (1 + exp (- x)) /\ fw_softplus x = ln (1 + exp x).
 Proof.
-  repeat split; try (spec; fail); [apply sigmoid_tanh_eq | apply softplus_stable_eq].
+  repeat split; first [apply sigmoid_tanh_eq | apply softplus_stable_eq | spec].
 Qed.
 
 (* x op k, resp. k op x for the _l variants *)
